@@ -93,3 +93,4 @@ def confirm(ses, v):
 def replay(path):
     from .. import replay as rp
     return rp.replay_file(path)
+BASELINE = ['core_builder_reuse']
